@@ -71,3 +71,33 @@ Proof.
   - rewrite write_all_limit by lia. cbn. destruct (total chunks <=? k); [reflexivity|discriminate].
   - rewrite write_all_badcomp. discriminate.
 Qed.
+
+(* ---------- the file named by -o after a successful run (Cases/C10.v: s_file_ok) ---------- *)
+From LC Require Import Model.OutFile Proofs.OutFileP Cases.C10.
+
+(* the model of the stagemaker half satisfies the predicate for every mode, sink, size and
+   previous content of the output path *)
+Lemma stage_model_holds : forall c : C10.scase,
+  C10.s_spec c (C10.s_model c) (C10.s_model_len c) = true.
+Proof.
+  intros c. unfold C10.s_spec, C10.s_file_ok, C10.s_model_len, C10.s_model, C10.s_fault_reached.
+  destruct (C10.sc_sink c) as [| |k|] eqn:Es; cbn [exit_ok_by_size negb orb andb].
+  - destruct (C10.sc_len c); [|reflexivity]. now rewrite out_len_exact, N.eqb_refl.
+  - destruct (C10.sc_size c =? 0) eqn:E; cbn [negb orb andb].
+    + destruct (C10.sc_len c); [|reflexivity]. now rewrite out_len_exact, N.eqb_refl.
+    + now destruct (C10.sc_len c).
+  - destruct (C10.sc_size c <=? k) eqn:E.
+    + assert (H : (k <? C10.sc_size c) = false) by lia. rewrite H. cbn [negb orb andb].
+      destruct (C10.sc_len c); [|reflexivity]. now rewrite out_len_exact, N.eqb_refl.
+    + rewrite Bool.orb_true_r. cbn [andb negb orb]. now destruct (C10.sc_len c).
+  - now destruct (C10.sc_len c).
+Qed.
+
+(* exit status 0 of the model run to a file: the file is the concatenation of the chunks, for
+   every previous content of the path *)
+Lemma stage_ok_file_is_output : forall s chunks (p : prior),
+  exit_ok s chunks = true -> out_file p chunks = concat chunks
+  /\ N.of_nat (length (out_file p chunks)) = total chunks.
+Proof.
+  intros s chunks p _. split; [apply out_file_exact|]. now rewrite out_file_exact.
+Qed.
